@@ -152,6 +152,19 @@ Section Auto.
     - intros f Ha. unfold focus_step. rewrite Ha. reflexivity.
     - intros f Ha. unfold focus_step. rewrite Ha. reflexivity.
   Qed.
+  (* ... and ON THE FINISHED SETUP: the explicit call crystal_setup.optimum_theta(&signal, &pump) returns the setup's own crystal
+     angle PROVIDED the external angle of the finished signal does not depend on the crystal angle (true of a collinear signal;
+     false otherwise -- the signal was converted in the placeholder crystal and never recomputed: finding F22) *)
+  Theorem auto_theta_is_final_optimum c s nf :
+    try_as_spdc_steps o U K minpos rj c = Ok (s, nf) -> cc_theta_deg (c_crystal c) = Auto ->
+    (forall th, o_snell_ext K (s_signal s) (set_crystal_theta (cfg_cs0 o c) th) = o_snell_ext K (s_signal s) (cfg_cs0 o c)) ->
+    optimum_theta o K (s_crystal s) (s_signal s) (s_pump s) = Ok (cs_theta (s_crystal s)).
+  Proof.
+    intros H Ha Hext. destruct (auto_is_explicit c s nf H) as (Ht & _). destruct (Ht Ha) as [Hopt Hcs].
+    rewrite Hcs at 1. unfold optimum_theta. rewrite Hext.
+    change (erase_theta o (set_crystal_theta (cfg_cs0 o c) (cs_theta (s_crystal s)))) with (erase_theta o (cfg_cs0 o c)).
+    exact Hopt.
+  Qed.
 End Auto.
 
 (* ------------------------------------------------------------------------------------------------------------------
